@@ -61,8 +61,11 @@ TLinkOpen ==
   /\ Ev("link_open") /\ ~lk.on
   /\ E.obs.esc = "" /\ E.obs.attached = 1
   /\ E.obs.maxSend = E.maxSend                    \* it will send at most what the peer announced
-  /\ 2 ^ E.obs.announcedExp = E.maxRecv           \* and announced its own configured maximum
-  /\ lk' = Half(E.maxSend, E.maxRecv, TRUE)
+  \* and announced the smallest power of two (2^9..2^24) that is not below its own configured maximum: what it announces
+  \* is what the peer may send, so that - not the configured number - is the limit on incoming frames from here on
+  /\ E.obs.announcedExp \in 9..24 /\ 2 ^ E.obs.announcedExp >= E.ownSize
+  /\ (E.obs.announcedExp > 9 => 2 ^ (E.obs.announcedExp - 1) < E.ownSize)
+  /\ lk' = Half(E.maxSend, 2 ^ E.obs.announcedExp, TRUE)
 TLinkSend ==
   /\ Ev("link_send") /\ lk.on /\ lk.t = "half" /\ UNCHANGED lk
   /\ IF ~lk.open \/ E.n > lk.maxSend
